@@ -10,7 +10,9 @@ from ..ref import refsem
 ID = 'C06'
 LEVEL = 'exploration'
 SALTS = 8
-RULE = ('each run = (i) 4 branch histories of <=10 operations (append a sentence node mentioning 0-3 constants from a 7-constant '
+RULE = ('each run = (o) its slice of the exhaustive enumeration of all branch histories of depth 4 (thorough: 5) over a 19-operation alphabet '
+        '(sentence nodes over 6 constant lists x 2 worlds, quantifier-initial sentences, 3 access nodes, copy, fork; every target branch), '
+        'checked like (i); (i) 4 branch histories of <=10 operations (append a sentence node mentioning 0-3 constants from a 7-constant '
         'pool incl. subscripts in a seeded order, at a seeded world / no world; append an access node; copy(); fork-style copy '
         'with parent) with, after EVERY operation and on EVERY live branch, new_constant() absent from all sentences on the '
         'branch, new_world() absent from all nodes, and the published constants/worlds equal to the occurring ones; (ii) one '
@@ -22,6 +24,36 @@ ASSUMPTIONS = ['R5: the symbols occurring on a branch are recomputed from its no
 
 def plan(tier):
     return dict(runs=2400 if tier == 'quick' else 80000, timeout=300 if tier == 'quick' else 3600)
+
+# -- exhaustive part: every history over a small alphabet of operations up to a depth bound
+
+ALPHA = ([['sent', cs, w, None, False] for cs in ([], [0], [3], [4], [6], [3, 0]) for w in (None, 1)] +
+         [['sent', cs, None, True, True] for cs in ([0], [3])] +
+         [['access', 0, 1], ['access', 1, 0], ['access', 2, 5]] + [['copy'], ['fork']])
+
+def enum_depth(tier):
+    return 4 if tier == 'quick' else 5
+
+def enum_size(depth):
+    n = 1
+    for i in range(depth):
+        n *= len(ALPHA) * (i + 1)
+    return n
+
+def decode_history(code, depth):
+    "code -> history (None if it names a branch that does not exist yet)."
+    ops, nb = [], 1
+    for i in range(depth):
+        base = len(ALPHA) * (i + 1)
+        code, d = divmod(code, base)
+        b, a = divmod(d, len(ALPHA))
+        if b >= nb:
+            return None
+        t = ALPHA[a]
+        ops.append([t[0], b] + [list(x) if isinstance(x, list) else x for x in t[1:]])
+        if t[0] in ('copy', 'fork'):
+            nb += 1
+    return ops
 
 def judge_history(ctx, ops, record=True):
     log = []
@@ -118,6 +150,18 @@ def judge_proof(ctx, cfg, record=True):
 
 def run(ctx):
     rng = ctx.rng('workload')
+    depth = enum_depth(ctx.tier)
+    total = enum_size(depth)
+    per = -(-total // plan(ctx.tier)['runs'])
+    for code in range(ctx.index * per, min(total, (ctx.index + 1) * per)):
+        ops = decode_history(code, depth)
+        if ops is None:
+            continue
+        r = branchsim.execute_fresh(ops, [])
+        ctx.count('enumerated_histories')
+        if r is not None:
+            judge_history(ctx, ops, record=False)
+            return
     for k in range(4):
         judge_history(ctx, branchsim.gen_fresh_ops(rng, rng.choice((2, 3, 4, 6, 10))))
         if ctx.violations:
